@@ -112,7 +112,10 @@ func (vc *VC) define(name string, s Sort, t Term) {
 func (vc *VC) assume(t Term) { vc.emit("(assert " + t + ")") }
 
 // Text renders the VC up to body index n (n<0: all).
-func (vc *VC) Text(n int, extra string) string {
+func (vc *VC) Text(n int, extra string) string { return vc.TextSkip(n, extra, nil) }
+
+// TextSkip renders the VC up to body index n without the body lines in skip.
+func (vc *VC) TextSkip(n int, extra string, skip map[int]bool) string {
 	var rest strings.Builder
 	for _, s := range vc.sorts {
 		rest.WriteString(s)
@@ -125,7 +128,10 @@ func (vc *VC) Text(n int, extra string) string {
 	if n < 0 || n > len(vc.body) {
 		n = len(vc.body)
 	}
-	for _, s := range vc.body[:n] {
+	for i, s := range vc.body[:n] {
+		if skip[i] {
+			continue
+		}
 		rest.WriteString(s)
 		rest.WriteByte('\n')
 	}
